@@ -1,5 +1,6 @@
 import Huginn.Model.Flow
 import Huginn.Model.HttpFlow
+import Huginn.Gen.FlowTtl
 /-
 Per-packet cache programs of the three stateful analyzers, mirroring the `TtlCache` traffic of
   * huginn-net-tcp/src/uptime.rs        `check_ts_tcp`
@@ -51,7 +52,7 @@ structure UptimeParams (U : Type) where
   /-- `calculate_frequency_p0f_style` + rounding + `calculate_uptime_from_frequency`:
   `none` = the error branch. Arguments: current (ts, ms), reference (ts, ms). -/
   estimate : Nat → Nat → Nat → Nat → Option U
-  ttlMs : Nat := 30000
+  ttlMs : Nat := Huginn.Gen.FlowTtl.tcpTtlSecs * 1000     -- regenerated from uptime.rs
 
 inductive UptimeOut (U : Type)
   | none
@@ -91,7 +92,7 @@ structure TlsParams (R S : Type) where
   newReader : R
   addBytes : R → Bytes → R × AddRes S     -- `TlsClientHelloReader::add_bytes` (mutates the reader)
   isTls : Bytes → Bool                    -- `is_tls_traffic`
-  ttlMs : Nat := 20000
+  ttlMs : Nat := Huginn.Gen.FlowTtl.tlsTtlSecs * 1000     -- regenerated from process.rs
 
 /-- With the flow's reader in hand: `reader.add_bytes` mutates the reader in place; on success or
 error the flow is removed right after, so the table ends up as after a plain `remove` (the transient
@@ -174,7 +175,7 @@ inductive PRes (Q P : Type)
 structure HttpParams (γ Q P : Type) where
   parseReq : γ → Bytes → γ × Option Q
   parseResp : γ → Bytes → γ × Option P
-  ttlMs : Nat := 60000
+  ttlMs : Nat := Huginn.Gen.FlowTtl.httpTtlSecs * 1000    -- regenerated from http_process.rs
   maxHead : Nat := 64 * 1024      -- MAX_BUFFERED_HEAD_BYTES
 
 structure HttpOut (Q P : Type) where
